@@ -71,6 +71,8 @@ def conf_line(d):
 
 
 def run_model(d, ops, timeout=1800):
+    global ROOTS
+    ROOTS = list(d.get("roots", {}).values())
     if not ops:
         return []
     inp = conf_line(d) + "\n" + "\n".join(json.dumps(o, ensure_ascii=False) for o in ops) + "\n"
@@ -111,7 +113,22 @@ def run_impl(ops, st=None, hashseed="0", timeout=1800, extra_env=None, server="i
 UNORDERED_OPS = {"simple_typing", "expand"}
 
 
+ROOTS = []
+
+
+def _under_roots(path):
+    return any(path == r or path.startswith(r + "/") for r in ROOTS)
+
+
 def canon_value(op, v):
+    if op.get("op") == "world" and op.get("do") == "dump" and isinstance(v, dict):
+        # the model's mkdir -p also records the ancestors of the project roots; only what lives under
+        # a project root is observable (and compared)
+        nodes = sorted([n for n in v["nodes"] if _under_roots(n[0])])
+        sides = [[p, (sorted(map(list, c)) if isinstance(c, list) else c)] for p, c in v["sidecars"]]
+        return {"nodes": [list(n) for n in nodes], "sidecars": sorted(sides, key=lambda x: x[0])}
+    if op.get("op") == "world" and op.get("do") == "getter_paths" and isinstance(v, list):
+        return sorted(v, key=lambda x: json.dumps(x, ensure_ascii=False))
     if op.get("op") in UNORDERED_OPS and isinstance(v, list):
         return sorted(v, key=lambda x: json.dumps(x, sort_keys=True, ensure_ascii=False))
     return v
